@@ -292,7 +292,7 @@ func (e *Engine) addSpecFile(sf *SpecFile, pkg *types.Package) {
 
 func (e *Engine) newCtx(fn *ssa.Function, ct *Contract) *FnCtx {
 	return &FnCtx{eng: e, fn: fn, contract: ct, unknown: map[string]bool{}, used: map[string]bool{}, trusted: map[string]bool{},
-		factSeen: map[int]bool{}, ordinals: map[ssa.Instruction]int{}, callOrd: map[ssa.Instruction]string{}, ghostVals: map[string]*Val{}, inlined: map[string]bool{}}
+		factSeen: map[int]bool{}, ordinals: map[ssa.Instruction]int{}, callOrd: map[ssa.Instruction]string{}, ghostVals: map[string]*Val{}, inlined: map[string]bool{}, readonlyExt: map[string]bool{}, counterWrites: map[string]string{}}
 }
 
 func (e *Engine) VerifyFunction(fn *ssa.Function, ct *Contract) (c *FnCtx) {
@@ -501,6 +501,9 @@ func (c *FnCtx) ghostAssign(env *Env, g *Clause) (err error) {
 	}
 	base := env.eval(g.LHS.Args[0])
 	v := env.eval(g.E)
+	if counterGhosts[ghostMapName(gf.Name)] {
+		c.counterWrites[ghostMapName(gf.Name)] = "ghost assignment"
+	}
 	Heap{st: env.cur}.storeGhost(identity(base), gf, v.X)
 	return nil
 }
@@ -526,12 +529,27 @@ func (c *FnCtx) frameObligations(fr *Frame, exit *State, entryEnv *Env, ct *Cont
 			}
 		}
 	}
+	if all {
+		// `everything` covers all ordinary locations. Counter ghosts are exempt from the callers'
+		// havoc, so they have to be listed explicitly to change: every counter that a callee's
+		// contract (or a ghost assignment of this function) writes must be named in this
+		// function's modifies clause. Decided syntactically (no solver): a loop-head havoc of a
+		// ghost map that is only written at fresh objects would make the semantic frame
+		// obligation unprovable.
+		var ks []string
+		for k := range c.counterWrites {
+			ks = append(ks, k)
+		}
+		sort.Strings(ks)
+		for _, k := range ks {
+			if !whole[k] && len(allowed[k]) == 0 {
+				c.errorf("frame: ghost counter %s is changed (%s) but not listed in the modifies clause of %s; callers would assume it unchanged", strings.TrimPrefix(k, "g:"), c.counterWrites[k], ct.Key)
+			}
+		}
+		return
+	}
 	var names []string
 	for k := range exit.heap {
-		if all && !counterGhosts[k] {
-			continue // `everything` covers all ordinary locations; counter ghosts are exempt from the
-			// callers' havoc and therefore have to be listed explicitly to change
-		}
 		names = append(names, k)
 	}
 	sort.Strings(names)
